@@ -16,6 +16,66 @@ use crate::engine::tape::{Reader, Tape};
 pub struct SrcFile {
     pub path: Option<String>,
     pub text: String,
+    /// bytes of comment padding appended when the file is handed to the compiler / written to
+    /// disk (`expand`): comments count towards the byte size of a project and cost little
+    #[serde(default)]
+    pub pad: u32,
+}
+
+/// The text the compiler sees: `text` followed by `pad` bytes of block comments.
+pub fn expand(f: &SrcFile) -> String {
+    if f.pad == 0 {
+        return f.text.clone();
+    }
+    let mut out = String::with_capacity(f.text.len() + f.pad as usize + 2);
+    out.push_str(&f.text);
+    out.push('\n');
+    let mut left = f.pad as usize;
+    let mut i = 0usize;
+    while left >= 100 {
+        out.push_str(&format!("(* pad {i:07} {} *)\n", "p".repeat(82)));
+        left -= 100;
+        i += 1;
+    }
+    out.push_str(&" ".repeat(left));
+    out
+}
+
+/// Successive builds of a project on disk in ONE bundle root, with changes of the source set
+/// between them; the state before the last build equals the project's own files.
+#[derive(Clone, Debug, Serialize, Deserialize, PartialEq)]
+pub struct BuildHistory {
+    pub steps: Vec<HistStep>,
+}
+
+#[derive(Clone, Debug, Serialize, Deserialize, PartialEq)]
+pub struct HistStep {
+    pub ops: Vec<FileOp>,
+}
+
+#[derive(Clone, Copy, Debug, Serialize, Deserialize, PartialEq)]
+pub enum MTime {
+    /// leave what the file system sets
+    Now,
+    /// back-dated: 1000 s before the current time (older than any artefact)
+    Older,
+    /// 1000 s in the future
+    Newer,
+    /// exactly the artefact's mtime (if there is one)
+    EqualArtefact,
+}
+
+#[derive(Clone, Debug, Serialize, Deserialize, PartialEq)]
+pub enum FileOp {
+    /// write project file `file` (index): its final text, or an alternative version with one more
+    /// function
+    Write { file: usize, alt: bool, mtime: MTime },
+    /// a file that is not part of the final project (one tiny function)
+    WriteExtra { k: u8, mtime: MTime },
+    DeleteExtra { k: u8 },
+    Delete { file: usize },
+    SetMtime { file: usize, mtime: MTime },
+    TouchArtefact { mtime: MTime },
 }
 
 #[derive(Clone, Debug, Serialize, Deserialize, PartialEq)]
@@ -266,6 +326,9 @@ pub struct GenStats {
     /// 0 no paths, 1 relative, 2 mixed, 3 absolute
     #[serde(default)]
     pub path_mode: usize,
+    /// bytes of source text incl. padding
+    #[serde(default)]
+    pub total_bytes: usize,
 }
 
 /// One small tape per entity, so that proptest shrinks by dropping whole entities.
@@ -281,6 +344,7 @@ pub struct Tapes {
     pub config: Tape,
     pub layout: Tape,
     pub steps: Vec<Tape>,
+    pub hist: Tape,
 }
 
 pub struct Generated {
@@ -289,6 +353,7 @@ pub struct Generated {
     pub stats: GenStats,
     /// (save interval in simulated ns or None, file store?) - None = no retain store
     pub retain: Option<(Option<i64>, bool)>,
+    pub history: Option<BuildHistory>,
 }
 
 /// Prefix of absolute source paths; the check replaces it by a per-batch scratch directory.
@@ -1571,7 +1636,7 @@ pub fn generate(t: &Tapes) -> Generated {
     };
     let body_len = 2 + g.r.pick(5);
     g.has_config = g.r.chance(5, 6);
-    let files_wanted = 1 + g.r.weighted(&[3, 3, 2, 2]);
+    let mut files_wanted = 1 + g.r.weighted(&[3, 3, 2, 2]);
     g.multi_file = files_wanted > 1;
     let n_ns = g.r.pick(4);
     let mut ns = Vec::new();
@@ -1591,6 +1656,24 @@ pub fn generate(t: &Tapes) -> Generated {
     };
     let retain = retain.map(|(i, _)| (i, g.r.chance(1, 4)));
     g.retain_interval = retain.and_then(|(i, _)| i).filter(|i| *i > 0 && *i <= 1_000_000_000);
+    // size plan (size- and count-triggered code paths): total bytes of source text around the
+    // thresholds 4 / 16 / 64 / 256 KiB / 1 MiB and file counts 1 / 2 / 8 / 32 / 100; the padding is
+    // comment text. 0 = as generated.
+    const KIB: usize = 1024;
+    let plan = g.r.weighted(&[240, 4, 4, 12, 2, 1]);
+    let (size_target, count_target, one_big): (usize, usize, bool) = match plan {
+        0 => (0, 0, false),
+        1 => ([4 * KIB - 7, 4 * KIB, 4 * KIB + 9][g.r.pick(3)], [1, 2, 8][g.r.pick(3)], g.r.flag()),
+        2 => ([16 * KIB - 1, 16 * KIB, 16 * KIB + 100][g.r.pick(3)], [1, 2, 8, 32][g.r.pick(4)], g.r.flag()),
+        // the LARGE class: 3-10 files, 64-300 KiB
+        3 => ([64 * KIB - 1, 64 * KIB, 64 * KIB + 1, 100 * KIB, 200 * KIB, 300 * KIB][g.r.pick(6)], 3 + g.r.pick(8), g.r.chance(1, 3)),
+        4 => ([256 * KIB - 1, 256 * KIB + 1, 260 * KIB][g.r.pick(3)], [2, 8, 32][g.r.pick(3)], g.r.flag()),
+        _ => ([KIB * KIB - 1, KIB * KIB + 1][g.r.pick(2)], [2, 2, 8, 100][g.r.pick(4)], g.r.flag()),
+    };
+    if count_target > 0 {
+        files_wanted = count_target;
+        g.multi_file = files_wanted > 1;
+    }
     for tp in &t.types {
         g.r = Reader::new(tp);
         g.gen_type(&ns);
@@ -1736,10 +1819,21 @@ pub fn generate(t: &Tapes) -> Generated {
     }
     let mut all = type_units;
     all.extend(other_units);
+    // a size plan with more files than units: tiny real POUs fill the gap, so that every file
+    // has content of its own
+    let mut pad_fn = 0;
+    while size_target > 0 && all.len() < files_wanted {
+        all.push(format!("FUNCTION PadFn{pad_fn} : DINT\nPadFn{pad_fn} := DINT#{pad_fn};\nEND_FUNCTION\n"));
+        pad_fn += 1;
+    }
     let n_files = files_wanted.min(all.len().max(1));
     let mut cuts: Vec<usize> = Vec::new();
-    for _ in 1..n_files {
-        cuts.push(g.r.pick(all.len() + 1));
+    for f in 1..n_files {
+        if size_target > 0 {
+            cuts.push(f * all.len() / n_files);
+        } else {
+            cuts.push(g.r.pick(all.len() + 1));
+        }
     }
     cuts.sort();
     let with_paths = g.r.weighted(&[2, 2, 1, 3]); // 0 none, 1 all relative, 2 mixed, 3 all absolute
@@ -1753,9 +1847,9 @@ pub fn generate(t: &Tapes) -> Generated {
         let path = match with_paths {
             0 => None,
             1 => Some(format!("src/{}{f}.st", STEMS[g.r.pick(STEMS.len())])),
-            // absolute: `<per-batch scratch dir>/src/uNN_<stem>.st`; the number keeps the sorted
+            // absolute: `<per-batch scratch dir>/src/uNNN_<stem>.st`; the number keeps the sorted
             // order of the files on disk equal to the order of the project
-            3 => Some(format!("{ABS_PREFIX}/src/u{f:02}_{}.st", STEMS[g.r.pick(STEMS.len())])),
+            3 => Some(format!("{ABS_PREFIX}/src/u{f:03}_{}.st", STEMS[g.r.pick(STEMS.len())])),
             _ => {
                 if f % 2 == 0 {
                     Some(format!("lib/unit{f}.st"))
@@ -1764,8 +1858,35 @@ pub fn generate(t: &Tapes) -> Generated {
                 }
             }
         };
-        files.push(SrcFile { path, text });
+        files.push(SrcFile { path, text, pad: 0 });
     }
+    // comment padding up to the size target: equal-sized files, or one big file and small ones;
+    // a padded file grows by pad + 1 bytes (see `expand`)
+    if size_target > 0 {
+        let n = files.len();
+        let text_total: usize = files.iter().map(|f| f.text.len()).sum();
+        if size_target > text_total + n {
+            if one_big || n == 1 {
+                let k = if n == 1 { 0 } else { g.r.pick(n) };
+                files[k].pad = (size_target - text_total - 1) as u32;
+            } else {
+                let each = size_target / n;
+                for f in files.iter_mut() {
+                    f.pad = each.saturating_sub(f.text.len() + 1) as u32;
+                }
+                // the last padded file takes the remainder, so that the total is exact
+                let actual: usize = files.iter().map(|f| f.text.len() + if f.pad > 0 { f.pad as usize + 1 } else { 0 }).sum();
+                if let Some(f) = files.iter_mut().rev().find(|f| f.pad > 0) {
+                    if size_target >= actual {
+                        f.pad += (size_target - actual) as u32;
+                    } else {
+                        f.pad = f.pad.saturating_sub((actual - size_target) as u32).max(1);
+                    }
+                }
+            }
+        }
+    }
+    g.stats.total_bytes = files.iter().map(|f| f.text.len() + if f.pad > 0 { f.pad as usize + 1 } else { 0 }).sum();
     g.stats.files = files.len();
 
     // trace
@@ -1809,5 +1930,54 @@ pub fn generate(t: &Tapes) -> Generated {
         }
         trace.push(Step { dt_ns: dt, writes });
     }
-    Generated { files, trace, stats: g.stats, retain }
+    // build history for projects on disk (absolute paths): half of them
+    g.r = Reader::new(&t.hist);
+    let history = if with_paths == 3 && g.r.chance(1, 2) {
+        let nf = files.len();
+        let mt = |r: &mut Reader| [MTime::Now, MTime::Older, MTime::Newer, MTime::EqualArtefact, MTime::Older][r.pick(5)];
+        let n_steps = 1 + g.r.pick(3); // builds BEFORE the final one
+        let mut steps = Vec::new();
+        for si in 0..n_steps {
+            let mut ops = Vec::new();
+            if si == 0 {
+                // initial population: every file (final or alternative text), 0-2 extra files
+                for f in 0..nf {
+                    let alt = g.r.chance(1, 3);
+                    let m = mt(&mut g.r);
+                    ops.push(FileOp::Write { file: f, alt, mtime: m });
+                }
+                for k in 0..g.r.pick(3) as u8 {
+                    let m = mt(&mut g.r);
+                    ops.push(FileOp::WriteExtra { k, mtime: m });
+                }
+            } else {
+                for _ in 0..1 + g.r.pick(3) {
+                    let f = g.r.pick(nf);
+                    let op = match g.r.pick(6) {
+                        0 => FileOp::Write { file: f, alt: g.r.flag(), mtime: mt(&mut g.r) },
+                        1 => FileOp::WriteExtra { k: g.r.pick(3) as u8, mtime: mt(&mut g.r) },
+                        2 => FileOp::DeleteExtra { k: g.r.pick(3) as u8 },
+                        3 => FileOp::Delete { file: f },
+                        4 => FileOp::SetMtime { file: f, mtime: mt(&mut g.r) },
+                        _ => FileOp::TouchArtefact { mtime: mt(&mut g.r) },
+                    };
+                    ops.push(op);
+                }
+            }
+            steps.push(HistStep { ops });
+        }
+        // the last step only says HOW the final state is reached (the child completes it: every
+        // project file gets its final text if it has not got it, extras are deleted)
+        let mut ops = Vec::new();
+        let m = mt(&mut g.r);
+        ops.push(FileOp::SetMtime { file: 0, mtime: m });
+        if g.r.flag() {
+            ops.push(FileOp::TouchArtefact { mtime: mt(&mut g.r) });
+        }
+        steps.push(HistStep { ops });
+        Some(BuildHistory { steps })
+    } else {
+        None
+    };
+    Generated { files, trace, stats: g.stats, retain, history }
 }
